@@ -57,7 +57,9 @@ pub fn judge_pair(ls: &LangSet, idx: &HashMap<String, Vec<u64>>, code: &str, a: 
     if out == literal {
         return PairVerdict { skipped_annotated: false, failure: None, outcome_class: "both-numbers" };
     }
-    if a == 0 && out == format!("0{}", b) {
+    // dictation clause: a zero said directly before a number attaches to it; with the conjunction word in between the
+    // statement leaves only "both numbers" (no standard spelling consists of zero + conjunction + number)
+    if a == 0 && !with_conj && out == format!("0{}", b) {
         return PairVerdict { skipped_annotated: false, failure: None, outcome_class: "zero-prefixed" };
     }
     let mut m = spell::morphemes_of_text(code, &pa);
